@@ -37,9 +37,14 @@ func init() {
 func getMapping(d dvid.Data, v dvid.VersionID) (*VCache, error) {
 	m := initMapping(d, v)
 
+	// initToVersion marks a version as mapped before it has read the mutation logs of the
+	// version and its ancestors, and holds m.mu while it does: wait for a load in progress
+	// instead of reading labels through a partly built mapping.
+	m.mu.RLock()
 	m.mappedVersionsMu.RLock()
 	_, found := m.mappedVersions[v]
 	m.mappedVersionsMu.RUnlock()
+	m.mu.RUnlock()
 	if found {
 		return m, nil // we have already loaded this version and its ancestors
 	}
